@@ -474,6 +474,23 @@ def _h_same(it, args, kw):
     return BoolSV(it.to_val(a) == it.to_val(b))
 
 
+def _seqfun_helper(name, elem):
+    def h(it, args, kw):
+        q, now, d = args
+        t = natives.seq_of(it, q)
+        if t is None:
+            t = z3.Empty(smt.SeqVal)
+        r = natives.seqfun_apply(it, name, t, it.to_int(now), it.to_int(d))
+        return ListObj(term=r, elem=elem)
+    return h
+
+
+# functions of a queue of time-stamped records (see natives.SEQFUNS)
+_helper("drop_aged_prefix")(_seqfun_helper("drop_aged_prefix", "tup:int,val"))
+_helper("aged_prefix_vals")(_seqfun_helper("aged_prefix_vals", "val"))
+_helper("young_vals")(_seqfun_helper("young_vals", "val"))
+
+
 @_helper("field")
 def _h_field(it, args, kw):
     """field(o, name, default): o.name when o is a record, else the default (total: usable under a false premise)"""
@@ -799,6 +816,12 @@ class OpHarness:
     def make_spec(self, it, ctx, params):
         modname, clsname = self.c.spec.split(":")
         cls = it.module_get(modname, clsname)
+        # the recursive sequence functions a spec module defines natively are the uninterpreted functions with their
+        # defining equations on the symbolic side
+        menv = it.module_env(modname)
+        for n in natives.SEQFUNS:
+            if n in menv.vars or n in it.loader.load(modname).bindings():
+                menv.vars[n] = SPEC_HELPERS[n]
         s = Obj(cls)
         for n, v in params.items():
             s.fields[n] = v
